@@ -47,7 +47,7 @@ def jobs(tier):
             for ser in ((0, 0), (1, 0), (0, 1), (1, 1)):
                 rej = [True] if qn == "L" else ([False, True] if qn == "11" else [False])
                 for rj in rej:
-                    for ln in (lens if ser == (0, 0) else lens[1:2]):
+                    for ln in (lens if ser == (0, 0) else lens[:2]):
                         js.append(("job_abstract", dict(
                             _name="abstract q=%s %s ser=%d%d rejectsZero=%d lens=%s" % (qn, flavour, ser[0], ser[1], rj, ln),
                             qn=qn, flavour=flavour, ser=ser, rej=rj, lens=ln)))
@@ -63,6 +63,7 @@ def build_pair(ctx, params, flavour, lens, ser=(0, 0), paramsB=None):
     idB = SymBytes.fresh("idB", lens[2])
     eA, eB = Entropy("entA"), Entropy("entB")
     pB = paramsB or params
+    ctx.data["w_in"] = dict(pw=pw, idA=idA, idB=idB)       # for counterexamples on paths that raise before the pair exists
     if flavour == "AB":
         KA, KB = S.SPAKE2_A, S.SPAKE2_B
         a = KA(pw, idA=idA, idB=idB, params=params, entropy_f=eA)
@@ -132,7 +133,11 @@ def _msg_log(w, which):
 def _cex(r, m, qn, flavour, ser):
     w = r.ctx.data.get("w")
     if w is None:
-        return None
+        wi = r.ctx.data.get("w_in")
+        if wi is None:
+            return None
+        return dict(flavour=flavour, ser=list(ser), pw=wi["pw"].model_bytes(m), idA=wi["idA"].model_bytes(m),
+                    idB=wi["idB"].model_bytes(m), x=3, y=5, qn=qn, w=None)
     xs = {}
     for nm, inst in (("x", w["a"]), ("y", w["b"])):
         xs[nm] = model_int(m, inst.xy_scalar) if hasattr(inst, "xy_scalar") else 0
